@@ -173,6 +173,11 @@ impl<D: AsRef<[u8]>, P: AsRef<[usize]>> RearCodedList<D, P> {
 
     fn index_of_sorted(&self, value: impl Borrow<<Self as Types>::Input>) -> Option<usize> {
         let string = value.borrow().as_bytes();
+        // A string containing a NUL cannot be in the list; moreover, it cannot
+        // be compared with the NUL-terminated strings of the list
+        if string.contains(&0) {
+            return None;
+        }
         // first to a binary search on the blocks to find the block
         let block_idx = self.pointers.as_ref().binary_search_by(|block_ptr| {
             strcmp(string, &self.data.as_ref()[*block_ptr..]).reverse()
